@@ -130,7 +130,44 @@ func grpcTypeMenu() []typeEntry {
 		{Name: "union_alias", T: &Type{K: KUnion, Attrs: []*Attr{AT(5, "us", User("AliasS")), AT(6, "ui", User("AliasI")), AT(7, "uo", User("Inner")), AT(8, "ub", P(KBool))}},
 			Defs: mergeDefs(aliasS, aliasI, inner)},
 		{Name: "union_array", T: &Type{K: KUnion, Attrs: []*Attr{AT(5, "us", P(KString)), AT(6, "ua", ArrT(P(KString)))}}},
+		// a message that holds BOTH a user type which itself contains a union (directly, in an
+		// array, in a map) AND a union of its own, in both attribute orders; a union whose
+		// alternative is such a user type, next to a second union
+		{Name: "holder_array_then_union", T: User("HolderAU"), Defs: gHolder("HolderAU", "array", false)},
+		{Name: "holder_union_then_array", T: User("HolderUA"), Defs: gHolder("HolderUA", "array", true)},
+		{Name: "holder_map_then_union", T: User("HolderMU"), Defs: gHolder("HolderMU", "map", false)},
+		{Name: "holder_union_then_map", T: User("HolderUM"), Defs: gHolder("HolderUM", "map", true)},
+		{Name: "holder_user_then_union", T: User("HolderTU"), Defs: gHolder("HolderTU", "user", false)},
+		{Name: "holder_union_then_user", T: User("HolderUT"), Defs: gHolder("HolderUT", "user", true)},
+		{Name: "holder_union_of_holder_then_union", T: User("HolderOU"), Defs: gHolder("HolderOU", "union", false)},
+		{Name: "holder_union_then_union_of_holder", T: User("HolderUO"), Defs: gHolder("HolderUO", "union", true)},
 	}
+}
+
+// gHolder defines a user type <name> with a "title", an attribute "items" that reaches the user
+// type UItem (which has a union "iu" of its own) through an array, a map, directly, or as an
+// alternative of a union, and a union "hu" of the holder itself; unionFirst puts "hu" before
+// "items".
+func gHolder(name, via string, unionFirst bool) []*TypeDef {
+	item := &TypeDef{Name: "UItem", Kind: "type", Attrs: []*Attr{AT(1, "label", P(KString)),
+		AT(9, "iu", &Type{K: KUnion, Attrs: []*Attr{AT(2, "ir", P(KFloat64)), AT(3, "is", P(KInt32))}})}, Required: []string{"label"}}
+	var items *Attr
+	switch via {
+	case "array":
+		items = AT(2, "items", ArrT(User("UItem")))
+	case "map":
+		items = AT(2, "items", MapT(P(KString), User("UItem")))
+	case "user":
+		items = AT(2, "items", User("UItem"))
+	default:
+		items = AT(2, "items", &Type{K: KUnion, Attrs: []*Attr{AT(2, "it", User("UItem")), AT(3, "ix", P(KString))}})
+	}
+	hu := AT(8, "hu", &Type{K: KUnion, Attrs: []*Attr{AT(5, "hs", P(KString)), AT(6, "hi", P(KInt32))}})
+	attrs := []*Attr{AT(1, "title", P(KString)), items, hu}
+	if unionFirst {
+		attrs = []*Attr{AT(1, "title", P(KString)), hu, items}
+	}
+	return []*TypeDef{item, {Name: name, Kind: "type", Attrs: attrs, Required: []string{"title"}}}
 }
 
 func mergeDefs(lists ...[]*TypeDef) []*TypeDef {
@@ -537,6 +574,39 @@ func GRPCValidation(thorough bool) []MethodCase {
 					m.GRPC.Message = []Map{{Attr: "aa"}}
 				}
 				m.Feat = map[string]string{"family": "G-valid", "valid": "required", "pos": "top-level-" + sh.name + "-" + listing, "loc": GMessage, "req": "required"}
+				out = append(out, MethodCase{M: m, Types: leafOnly})
+			}
+		}
+	}
+	// the same on the RESULT side: required result attributes of every shape with the response
+	// message attributes inferred, all listed with Response(CodeOK, func(){ Message(...) }), only a
+	// required one listed, only the optional one listed. The generated client must reject a
+	// response that lacks a required field before user code sees a result.
+	{
+		leafOnly := []*TypeDef{leaf}
+		shapes := []struct {
+			name string
+			t    *Type
+		}{
+			{"message", User("Leaf")},
+			{"array-of-message", ArrT(User("Leaf"))},
+			{"map-of-message", MapT(P(KString), User("Leaf"))},
+			{"array", ArrT(P(KString))},
+			{"string", P(KString)},
+			{"int32", P(KInt32)},
+		}
+		for _, sh := range shapes {
+			for _, listing := range []string{"inferred", "listed", "listed-required-in-part", "listed-optional-only"} {
+				m := GRPCMethod(c.next(), nil, []GAttr{{A: AT(1, "aa", cloneType(sh.t)), Where: GMessage, Req: true}, {A: AT(2, "bb", P(KString)), Where: GMessage}, {A: AT(3, "cc", User("Leaf")), Where: GMessage, Req: true}})
+				switch listing {
+				case "listed":
+					m.GRPC.RespMessage = []Map{{Attr: "aa"}, {Attr: "bb"}, {Attr: "cc"}}
+				case "listed-required-in-part":
+					m.GRPC.RespMessage = []Map{{Attr: "aa"}}
+				case "listed-optional-only":
+					m.GRPC.RespMessage = []Map{{Attr: "bb"}}
+				}
+				m.Feat = map[string]string{"family": "G-valid", "side": "result", "valid": "required", "pos": "response-" + sh.name + "-" + listing, "loc": GMessage, "req": "required"}
 				out = append(out, MethodCase{M: m, Types: leafOnly})
 			}
 		}
